@@ -57,6 +57,7 @@ def pytest(args, cwd):
     return (summ[-1].strip('= ') if summ else 'no summary'), failed
 
 
+rebased_text = None
 sh(['git', '-C', '/repo', 'worktree', 'remove', '--force', wt])
 rc, out = sh(['git', '-C', '/repo', 'worktree', 'add', '-q', '--detach', wt, 'HEAD'])
 assert rc == 0, out
@@ -68,7 +69,13 @@ try:
     assert out.strip().startswith(wt), out
     clean, _ = sh([PY, 'SEEDED/x/demo.py'], wt, 600)
     rc, out = sh(['git', 'apply', 'SEEDED/x/patch.diff'], wt)
-    assert rc == 0, 'patch does not apply: ' + out
+    if rc != 0:
+        # /repo has moved on since the change was written: take it with patch(1)'s fuzz and keep the regenerated diff
+        rc, out = sh(['patch', '-p1', '-s', '--no-backup-if-mismatch', '-i', 'SEEDED/x/patch.diff'], wt)
+        assert rc == 0, 'patch does not apply: ' + out
+        rc, out = sh(['git', 'diff'], wt)
+        open(os.path.join(wt, 'SEEDED/x/patch.diff'), 'w').write(out)
+        rebased_text = out
     patched, demo_out = sh([PY, 'SEEDED/x/demo.py'], wt, 600)
     # tests/web/test_wsgi_application.py::test_404 can spin for ever when it runs late in a long session on a loaded machine (also on
     # the clean tree; pytest-timeout cannot break it): it is run on its own, everything else in one session
@@ -107,6 +114,9 @@ if clean == 0 and patched == 1 and not still and not summary.startswith('no summ
     os.makedirs(d, exist_ok=True)
     for f in ('patch.diff', 'demo.py', 'README.md'):
         shutil.copy(os.path.join(src, f), d)
+    if rebased_text:
+        shutil.copy(os.path.join(src, 'patch.diff'), d + '/patch.orig.diff')
+        open(d + '/patch.diff', 'w').write(rebased_text)
     json.dump(dict(id=sid, property=prop,
                    source='written by an independent sub-agent that was given only the property text and its own scratch worktree',
                    needs='see README.md (what the change needs in order to manifest)',
